@@ -108,7 +108,7 @@ theorem cast_chunks (app : App) (hall : app.all homog = true) (fw : Bool) (s : S
     ∀ items c n, (cast app fw s out).2 = .body items c n → items.all BodyItem.isChunk = true := by
   intro items c n h
   have := runLoop_invariant app fw ChunkInv (step_chunk app hall fw)
-    (Gen.castMaxLoops + 1) (.run 0 s out) ho
+    (Gen.wsgiCastMaxLoops + 1) (.run 0 s out) ho
   unfold cast at h
   split at h
   · rename_i heq; rw [heq] at this; simp only at h; subst h; exact this
@@ -191,7 +191,7 @@ theorem cast_cl (app : App) (fw : Bool) (s : Slots) (out : Out) :
       bodyLen items = n ∧
       ∃ pre, (cast app fw s out).1.resp.headers = pre ++ [("Content-Length".toList, [HVal.good (natStr n)])] := by
   intro items c n h
-  have := runLoop_invariant app fw ClInv (step_cl app fw) (Gen.castMaxLoops + 1) (.run 0 s out) trivial
+  have := runLoop_invariant app fw ClInv (step_cl app fw) (Gen.wsgiCastMaxLoops + 1) (.run 0 s out) trivial
   unfold cast at h ⊢
   split at h
   · rename_i heq
